@@ -33,7 +33,7 @@ ASSUMPTIONS = [
     "for |x|=10^k constant windows numpy's sqrt/mean/log10 are exact on this build (verified at design time; a mismatch would show as a violation of the boundary cases, to be investigated)",
     "decision not compared when the exact energy lies within 1e-9 dB of the threshold",
 ]
-BOUNDS = {"quick": dict(n=700, maxn=64), "thorough": dict(n=15000, maxn=2048)}
+BOUNDS = {"quick": dict(n=700, maxn=64), "thorough": dict(n=5000, maxn=2048)}
 NAMES_OK = (None, "any") + MIX
 NAMES_BAD = ("left", "", "MIX", "all", "0")
 POWS = {1: 2, 2: 4, 4: 9}
